@@ -347,10 +347,32 @@ def r4_graph_complete(c, facts):
     R = c.rule('C09.R4', 'GRAPH-COMPLETE: every use inside a declaration contributes an edge to the definition graph (shared with C08.R2)')
     c.shared(R, c08.r2_pairing, 'C08.R2', facts)
     df = c.anchor(R, 'oal_compiler::resolve::define_variable')
-    if P.call_blocks(df, 'resolve::Builder::connect'):
-        c.ok(R, {'define_variable': 'connects the current definition to every external definition it uses'})
-    else:
+    cn = P.call_blocks(df, 'resolve::Builder::connect')
+    if not cn:
         c.bad(R, 'uses-not-connected', 'define_variable no longer records a dependency edge for an external definition')
+    else:
+        # every use of an external definition is connected: the only decisions between "found" and the edge are the
+        # result of the lookup and the kind of the definition (External / Internal), never a property of the use
+        didx = MF.defs_index(df)
+        cb = cn[0][0]
+        extra = set()
+        for b, blk in df.blocks():
+            sw = blk['term']
+            if sw['t'] != 'switch' or 'l' not in sw['discr']:
+                continue
+            succ = df.succ(b)
+            to_cb = [x for x in succ if cb in df.reachable_from(x)]
+            skip = [x for x in succ if P.success_return_reachable(df, x, [cb])]
+            if not to_cb or not skip or all(x in to_cb for x in skip) and len(set(succ)) == 1:
+                continue
+            if set(to_cb) == set(skip) and len(succ) == len(to_cb):
+                continue
+            names = {P.strip(n).split('::')[-1] for n, _, _ in MF.slice_back(df, sw['discr']['l'], didx)['calls']} - {'lookup', 'clone', 'as_ref', 'deref', 'new', 'ident', 'qualifier', 'map', 'from'}
+            extra |= names
+        if extra:
+            c.bad(R, 'connect-conditional-on:%s' % ','.join(sorted(extra)), 'define_variable adds the dependency edge only under a condition on %s: uses for which it is false add no edge, so a cycle through them is never detected (accepted alias cycles, or an evaluation that never ends)' % sorted(extra))
+        else:
+            c.ok(R, {'define_variable': 'connects the current definition to every external definition it uses'})
     co = c.anchor(R, 'oal_compiler::resolve::Builder::connect')
     if P.call_blocks(co, 'add_edge'):
         c.ok(R, {'Builder::connect': 'adds the edge current -> used'})
@@ -386,6 +408,9 @@ def r5_recursion_is_schema(c, facts):
 
 
 def run(c, facts):
+    import c03
+    R6 = c.rule('C09.R6', 'COMPONENT-HELD: the component a recursion point refers to is registered under the name the $ref uses (shared with C03.R1)')
+    c.shared(R6, c03.r1_ref_close, 'C03.R1', facts)
     c.run(r5_recursion_is_schema, facts)
     c.run(r4_graph_complete, facts)
     c.run(r1_marker, facts)
